@@ -25,7 +25,7 @@ SPEC = os.path.join(vlib.SPEC, "chain")
 BASE = dict(MinDeposit=2, BidMinDeposit=1, BidDepositChoices=[1], KeyChoices="NoKeys", AttrChoices="NoAttrs")
 FAMILIES = {
     # one group: lifecycle / same-block histories
-    "S": dict(BASE, Tenants=["t1"], Providers=["p1", "p2"], Auditors=[], DSeqs=[1], GSeqs=[1], OSeqs=[1, 2, 3],
+    "S": dict(BASE, Tenants=["t1"], Providers=["p1", "p2"], Auditors=[], DSeqs=[1, 2], GSeqs=[1], OSeqs=[1, 2, 3],
               GroupChoices="GroupChoicesS", DepositChoices=[2, 3], PriceChoices=[1, 2], AmountChoices=[1, 2],
               Versions=[1, 2], Gaps=[1, 2, 3], InitCoins=6),
     # two groups: concurrently open payments of different rates, weighted/even overdraft distribution
@@ -40,6 +40,10 @@ FAMILIES = {
     "R": dict(BASE, Tenants=["t1"], Providers=["p1", "p2"], Auditors=["a1", "a2"], DSeqs=[1, 2], GSeqs=[1], OSeqs=[1, 2],
               GroupChoices="GroupChoicesR", DepositChoices=[3], PriceChoices=[1, 3], AmountChoices=[1],
               AttrChoices="AttrChoicesR", KeyChoices="KeyChoicesR", Versions=[1], Gaps=[1, 2], InitCoins=8),
+    # exhaustive, tiny: one provider holding leases of two deployments with different requirements (C08 update guard)
+    "RX": dict(BASE, Tenants=["t1"], Providers=["p1"], Auditors=[], DSeqs=[1, 2], GSeqs=[1], OSeqs=[1],
+               GroupChoices="GroupChoicesRX", DepositChoices=[3], PriceChoices=[1], AmountChoices=[1], AttrChoices="AttrChoicesRX",
+               Versions=[1], Gaps=[1], InitCoins=8, MaxHeight=2),
     # exhaustive: every state and every transition of this bounded model is visited by TLC
     "SX": dict(BASE, Tenants=["t1"], Providers=["p1", "p2"], Auditors=[], DSeqs=[1], GSeqs=[1], OSeqs=[1, 2],
                GroupChoices="GroupChoicesS", DepositChoices=[2], PriceChoices=[1], AmountChoices=[1],
@@ -60,8 +64,12 @@ ESCROW_FAMILIES = {
 FAMILIES.update(ESCROW_FAMILIES)
 
 # which families matter for which property (quick tier); thorough runs all of them
-QUICK = {"C01": ["S", "A", "E"], "C02": ["E", "A"], "C03": ["S", "E"], "C04": ["S", "A"], "C05": ["S", "A"],
-         "C06": ["B", "S"], "C07": ["R", "S"], "C08": ["R"], "C16": ["S", "R"]}
+QUICK = {"C01": ["SX", "A", "E"], "C02": ["E", "A"], "C03": ["SX", "S", "E"], "C04": ["SX", "A"], "C05": ["SX", "S"],
+         "C06": ["B", "S"], "C07": ["R", "S"], "C08": ["RX", "R"], "C16": ["SX", "R"]}
+EXHAUSTIVE = {"SX", "RX", "E", "E3"}
+PAR = max(2, min(8, vlib.NCPU // 2))     # concurrent harness processes / J3 JVMs
+NODE_CAP_QUICK = 9000
+NODE_CAP_THOROUGH = 150000
 J1_INVS = "InvC01 InvC02 InvC03 InvC04 InvC05"
 J1_PROPS = "StepC01 StepC02 StepC03 StepC06 StepC08"
 
@@ -144,9 +152,9 @@ def j1(fam, sim, seed, num, depth, timeout):
     if sim:
         workers = min(8, vlib.NCPU)
         r = vlib.tlc(SPEC, module, "MC.cfg", workers=workers, timeout=timeout, extra_files={"MC.cfg": cfg},
-                     simulate=dict(num=max(1, num // workers), depth=depth + 2, seed=seed))
+                     simulate=dict(num=max(1, num // workers), depth=depth + 2, seed=seed), heap="6g")
     else:
-        r = vlib.tlc(SPEC, module, "MC.cfg", workers=vlib.NCPU, timeout=timeout, extra_files={"MC.cfg": cfg})
+        r = vlib.tlc(SPEC, module, "MC.cfg", workers=vlib.NCPU, timeout=timeout, extra_files={"MC.cfg": cfg}, heap="12g")
     vlib.tlc_require_ok(r, "J1 %s family %s (%s)" % (module, fam, "simulate" if sim else "exhaustive"))
     nodes, alpha = parse_export(r.out)
     if not nodes or alpha is None:
@@ -159,24 +167,28 @@ def run_harness(vh, fam, work, nodes, alpha, expand, seed, shards, reps):
     wcfg = dict(tenants=c["Tenants"], providers=c["Providers"], auditors=c["Auditors"], initCoins=c["InitCoins"],
                 minDeposit=c["MinDeposit"], bidMinDeposit=c["BidMinDeposit"])
     json.dump(wcfg, open(os.path.join(work, "world.json"), "w"))
-    with open(os.path.join(work, "paths.ndjson"), "w") as fh:
-        for n in nodes:
-            fh.write(n + "\n")
+    # every shard gets its own slice of the exported states (a path carries its ancestors), so no process holds them all
+    for i in range(shards):
+        with open(os.path.join(work, "paths.%d.ndjson" % i), "w") as fh:
+            for n in nodes[i::shards]:
+                fh.write(n + "\n")
     json.dump(alpha, open(os.path.join(work, "alphabet.json"), "w"))
     maxh = c.get("MaxHeight", 0)
+    per = max(1, expand // shards) if expand else 0
 
     def one(i):
         out = os.path.join(work, "trace.%d.ndjson" % i)
-        cmd = [vh, "chain", "explore", "--config", os.path.join(work, "world.json"), "--paths", os.path.join(work, "paths.ndjson"),
-               "--alphabet", os.path.join(work, "alphabet.json"), "--out", out, "--nodes", str(expand), "--seed", str(seed),
-               "--shard", str(i), "--shards", str(shards), "--reps", str(reps), "--reps-audit", str(max(4, reps)),
+        cmd = [vh, "chain", "explore", "--config", os.path.join(work, "world.json"), "--paths", os.path.join(work, "paths.%d.ndjson" % i),
+               "--alphabet", os.path.join(work, "alphabet.json"), "--out", out, "--nodes", str(per), "--seed", str(seed + i),
+               "--shard", "0", "--shards", "1", "--reps", str(reps), "--reps-audit", str(max(4, reps)),
                "--maxheight", str(maxh), "--all-paths"]
-        rc, txt = vlib.run(cmd, timeout=3000)
+        env = dict(os.environ, GOGC="50", GOMAXPROCS="2")
+        rc, txt = vlib.run(cmd, timeout=3000, env=env)
         if rc != 0:
             raise vlib.Inconclusive("harness failed (family %s shard %d): %s" % (fam, i, txt[-2000:]))
         return out, json.loads(txt.strip().splitlines()[-1])
 
-    with cf.ThreadPoolExecutor(max_workers=shards) as ex:
+    with cf.ThreadPoolExecutor(max_workers=min(PAR, shards)) as ex:
         return list(ex.map(one, range(shards)))
 
 
@@ -186,7 +198,7 @@ _DRIFT = re.compile(r'^<<"DRIFT", (\d+), ')
 
 def j3(fam, trace, which, timeout=1800):
     r = vlib.tlc(SPEC, "ChainTrace", "T.cfg", workers=1, timeout=timeout, extra_files={"T.cfg": trace_cfg(fam, which)},
-                 copy_files={"trace.ndjson": trace})
+                 copy_files={"trace.ndjson": trace}, heap="3g")
     fails, drift = [], []
     for line in r.out.splitlines():
         m = _FAIL.match(line)
@@ -256,17 +268,19 @@ def run(pid, tier, seed, replay):
     plans = []
     if thorough:
         plans.append(("SX", False, 0, 0, 0))            # exhaustive: every state, whole alphabet at every state
+        if pid in ("C08", "C06", "C07", "C16"):
+            plans.append(("RX", False, 0, 0, 0))
         if pid in ("C01", "C02", "C03", "C06", "C07"):
             plans.append(("E", False, 0, 0, 0))
-            plans.append(("EL", True, 1600, 40, 1500))
+            plans.append(("EL", True, 640, 40, 1500))
         for f in ("S", "A", "B", "R"):
-            plans.append((f, True, 1600, 32, 1500))
+            plans.append((f, True, 640, 32, 1500))
     else:
         for f in QUICK[pid]:
-            if f == "E":
-                plans.append((f, False, 0, 0, 1200))    # exhaustive J1; the alphabet is replayed at a seeded sample of its states
+            if f in EXHAUSTIVE:
+                plans.append((f, False, 0, 0, 300))    # exhaustive J1; the alphabet is replayed at a seeded sample of its states
             else:
-                plans.append((f, True, 320, 28, 260))
+                plans.append((f, True, 64, 26, 160))
     cov = dict(states=0, transitions=0, traces_validated_against_impl=0, evaluations=0, drift_steps=0, configs=[],
                samples=[], exhaustive=False)
     distinct = set()
@@ -274,11 +288,18 @@ def run(pid, tier, seed, replay):
     selft = None
     for fam, sim, num, depth, expand in plans:
         r1, nodes, alpha = j1(fam, sim, seed, num, depth, timeout=3000)
+        exported = len(nodes)
+        cap = NODE_CAP_THOROUGH if thorough else NODE_CAP_QUICK
+        if len(nodes) > cap:
+            # a seeded sample of the states TLC visited (their ancestors are executed as well)
+            rnd = random.Random(seed * 7919 + len(nodes))
+            nodes = sorted(rnd.sample(nodes, cap), key=lambda s: (len(s), s))
         work = vlib.scratch("chain-%s-" % fam)
-        shards = 8 if (thorough or len(nodes) > 2000) else 4
+        est = len(nodes) * 2 + min(expand or len(nodes), len(nodes)) * len(alpha)
+        shards = max(2, est // 6000 + 1)
         outs = run_harness(vh, fam, work, nodes, alpha, expand, seed, shards, reps=3 if pid == "C07" else 2)
         nsteps = sum(o[1]["steps"] for o in outs)
-        with cf.ThreadPoolExecutor(max_workers=shards) as ex:
+        with cf.ThreadPoolExecutor(max_workers=min(PAR, shards)) as ex:
             res = list(ex.map(lambda o: j3(fam, o[0], [pid, "CONF"]), outs))
         for (tr, _), (r3, fails, drift) in zip(outs, res):
             lines = None
@@ -317,7 +338,7 @@ def run(pid, tier, seed, replay):
             cov["exhaustive"] = True
         cov["evaluations"] += nsteps
         cov["configs"].append({"family": fam, "mode": "simulate" if sim else "exhaustive", "model_states": r1.distinct or len(nodes),
-                               "model_transitions": r1.generated or len(nodes), "exported_states": len(nodes),
+                               "model_transitions": r1.generated or len(nodes), "exported_states": exported, "replayed_states": len(nodes),
                                "alphabet": len(alpha), "impl_steps": nsteps, "j1_wall_s": round(r1.wall_s, 1)})
     cov["drift_steps"] = len(drifts)
     for dmsg in drifts[:20]:
